@@ -108,6 +108,15 @@ CHECKS = {
         note="Interleaving granularity is the event loop's poll turn (seed-chosen prefixes of its pending events), datagram delivery order and the time slices between application steps. The lock-release granularity named in the property's quantifier would need yield hooks inside RustDDS (planned hook H6) and was not built: a race that needs a preemption between two statements of one event-loop turn is outside what this check can reach. Found and fixed: AsyncWaitForAcknowledgments answered Pending without leaving a waker anywhere (8d2c580).",
         technique=TECH + "; parked-application executor (re-poll only when woken / readable) with a bounded-liveness oracle and a lost-wake-up discriminator",
     ),
+    "C19": dict(
+        engine="E3",
+        category="exploration",
+        text="Seeded deterministic simulation (engine E3) of the authentication handshake between real AuthenticationBuiltin plugin instances whose identities come from fixture files (participant1: the shipped certificate; participant2: issued with the shipped Identity CA key; an outsider with the same subject certified by another CA). The simulator owns the channel: before each of the three genuine messages it injects 0-3 of {a copy with one field altered (bit flip, cut, emptied, removed, replaced by the same field of another message, class id changed), a replay of an earlier message of this or an earlier session, the wrong message of the session for this point, a request or a certificate of the foreign-CA participant, participant data whose GUID is not bound to the certificate}. Oracle: process_handshake answers Ok / OkFinalMessage only to the genuine message of the running session; after any rejected (or answered-but-forged) message the genuine message is still served, in the same session or after the handshake is started again (at most twice); when both sides are done their shared secrets and both challenges are identical; a full attempt of the foreign-CA participant against a genuine one gets neither a reply nor a completion.",
+        design_ref="DESIGN.md section 5 C19, section 12",
+        note="Plugin level only: Discovery's ParticipantStatelessMessage plumbing, its related-message-identity filter and resend timers, and the crypto/access-control plugins are not in this engine (a whole-participant security smoke test, X02, showed the handshake completing but user data failing to decode in simulation; not resolved, see DESIGN.md 12.6). Leaving out a field the specification marks optional (hash_c1, hash_c2, echoed dh1/dh2) is not counted as an alteration. Answering an altered request is not counted as authentication (a request is not signed); what is required is that the genuine request is still answered. Built with the crate's `security` feature into /verif/target-sec. Found and fixed (3b1d761): any rejected message destroyed the handshake state (the genuine reply was then refused for ever; a stray message after completion cost the shared secret), and a forged request answered first blocked the genuine request.",
+        technique=TECH + "; real plugin instances as parties with a simulator-owned channel (alteration, replay, reordering, forgery) and safety/liveness oracles on the plugin calls",
+        replay="target-sec/debug/dst replay {path} -v",
+    ),
     "C20": dict(
         engine="E1",
         category="exploration",
@@ -125,8 +134,7 @@ NOT_APPLICABLE = {
     "C15": PURE % ("PL_CDR (de)serialisation of discovery data", "a discovery data value, extra parameters and a byte order") + " Incidental, unclaimed: the scripted participants of C11/C12 are understood by real Discovery in both byte orders.",
     "C16": PURE % ("the cryptographic transform", "an encoded message, key material and one alteration"),
     "C18": PURE % ("signature verification and the permissions/governance decision", "a document and a query"),
-    "C17": "A simulation target (sequences of protected/unprotected submessages against receiver state), but it needs engine E3 (security plugins with governance fixtures), which was not built in this round.",
-    "C19": "A simulation target (a three-message handshake under replay, reordering and forgery), but it needs engine E3 (security plugins, a second CA-issued identity fixture), which was not built in this round.",
+    "C17": "A simulation target (sequences of protected/unprotected submessages against receiver state), but it needs the crypto and access-control plugins wired to a MessageReceiver with governance fixtures; only the authentication part of engine E3 was built in this round.",
 }
 
 ALL = ["C%02d" % i for i in range(1, 21)]
@@ -142,7 +150,7 @@ def main():
             "quick_cmd": f"bin/check {pid} quick",
             "thorough_cmd": f"bin/check {pid} thorough",
             "evidence_file": f"/verif/evidence/{pid}.json",
-            "replay_cmd_template": "target/debug/dst replay {path} -v",
+            "replay_cmd_template": c.get("replay", "target/debug/dst replay {path} -v"),
             "engine": c["engine"],
             "level_claimed": {
                 "category": c["category"],
